@@ -36,6 +36,10 @@ func main() {
 		os.Exit(2)
 	}
 	stream := os.Args[1]
+	if stream == "crashchild" && len(os.Args) == 3 {
+		crashChild(os.Args[2])
+		return
+	}
 	fs := flag.NewFlagSet(stream, flag.ExitOnError)
 	seed := fs.Uint64("seed", 1, "PRNG seed")
 	n := fs.Int("n", 100, "size parameter of the stream")
@@ -90,6 +94,8 @@ func main() {
 		reportStream(*seed, *n)
 	case "load":
 		loadStream(*seed, *n, *tier)
+	case "hostcrash":
+		hostCrashStream(*seed, *n)
 	case "cpuruns":
 		cpuRuns(*seed, *n)
 	case "mem04", "mem05", "mem06", "mem07":
